@@ -101,6 +101,12 @@ def cases(tier, seed):
                 continue        # homogeneous spheres only
             out.append({"id": "lin:%s:%s" % (th, sc), "kind": "lin",
                         "th": th, "sc": sc})
+    # a close pair of spheres (interacting: the default theory is
+    # Multisphere) with channel-dependent index or radius
+    for what in ("n-dict", "n-xarray", "r-dict", "n-dict+r-dict"):
+        for th in ("auto", "Multisphere"):
+            out.append({"id": "chcluster:%s:%s" % (what, th),
+                        "kind": "chcluster", "what": what, "th": th})
     D = 2 if tier == "quick" else 3
     for vec in deviations({k: list(range(len(v))) for k, v in
                            CH_AXES.items()}, D):
@@ -326,10 +332,65 @@ def _run_ch(case, ck):
     return digest(*fps)
 
 
+def _run_chcluster(case, ck):
+    from holopy.scattering import (Sphere, Spheres, Multisphere, calc_holo,
+                                   calc_field)
+    labels = ["red", "green"]
+    what, thname = case["what"], case["th"]
+    c1, c2 = (0.17, 0.21, 5.0), (1.1, 0.6, 5.4)
+
+    def mk(nv, rv):
+        with warnings.catch_warnings():
+            warnings.simplefilter("ignore")
+            return Spheres([Sphere(n=nv, r=rv, center=c1),
+                            Sphere(n=1.45, r=0.3, center=c2)])
+    nv = _mk_param("dict" if "n-dict" in what else
+                   ("xarray" if "n-xarray" in what else "scalar"),
+                   NIDX, labels, 1)
+    rv = _mk_param("dict" if "r-dict" in what else "scalar", RAD, labels, 1)
+    wl = {lab: WLS[lab] for lab in labels}
+    det = H.det_grid((3, 4), 0.1, extra_dims={"illumination": labels})
+    det1 = H.det_grid((3, 4), 0.1)
+
+    def theory():
+        return "auto" if thname == "auto" else Multisphere()
+    fps = []
+    for fn in (calc_holo, calc_field):
+        try:
+            with warnings.catch_warnings():
+                warnings.simplefilter("ignore")
+                multi = fn(det, mk(nv, rv), H.NMED, wl, (1, 0),
+                           theory=theory())
+            ck.trans += 1
+        except Exception as e:
+            ck.true("multichannel-accepted", False, "%s of a two-sphere "
+                    "cluster with per-channel %s (theory %s) raised %s: %s" %
+                    (fn.__name__, what, thname, type(e).__name__, e))
+            return "exc:" + type(e).__name__
+        for lab in labels:
+            n1 = NIDX[lab] if "n-" in what else NIDX[labels[0]]
+            r1 = RAD[lab] if "r-dict" in what else RAD[labels[0]]
+            with warnings.catch_warnings():
+                warnings.simplefilter("ignore")
+                one = fn(det1, mk(n1, r1), H.NMED, WLS[lab], (1, 0),
+                         theory=theory())
+            ck.trans += 1
+            got = multi.sel(illumination=lab).transpose(*one.dims).values
+            e = float(np.abs(got - one.values).max() /
+                      np.abs(one.values).max())
+            ck.metric("chcluster", e)
+            ck.true("channel-equals-single", e <= 1e-9, "%s: channel %r of "
+                    "a two-sphere cluster with per-channel %s (theory %s) "
+                    "differs from the single-channel calculation by %.2e" %
+                    (fn.__name__, lab, what, thname, e))
+            fps.append(fp_values(got))
+    return digest(*fps)
+
+
 def run_case(case):
     ck = Checker()
     fp = {"sup": _run_sup, "tree": _run_tree, "lin": _run_lin,
-          "ch": _run_ch}[case["kind"]](case, ck)
+          "ch": _run_ch, "chcluster": _run_chcluster}[case["kind"]](case, ck)
     if fp == "unsupported":
         return ck.result(fp=fp, outcome="refused", nontrivial=False)
     return ck.result(fp=fp)
